@@ -45,6 +45,9 @@ ChainRule(calls, complete) ==
     /\ \A k \in 1..Len(calls) :                       \* points in pipeline order, indices 1,2,.. in order
          /\ k > 1 => \/ calls[k].p = calls[k-1].p /\ calls[k].i = calls[k-1].i + 1 /\ calls[k-1].v = "GoOn"
                      \/ Rank(calls[k].p) > Rank(calls[k-1].p) /\ calls[k].i = 1
+                     \* the forward point is visited once per attempt (a failed connect is retried)
+                     \/ /\ calls[k].p = "FW" /\ calls[k-1].p = "FW" /\ calls[k].i = 1
+                        /\ (calls[k-1].v # "GoOn" \/ calls[k-1].i = MaxChain)
          /\ k = 1 => calls[k].i = 1
     /\ \A k \in 1..Len(calls) :                       \* a chain is left early only by a non-GoOn verdict
          ((k = Len(calls) /\ complete) \/ (k < Len(calls) /\ calls[k+1].p # calls[k].p)) =>
